@@ -351,7 +351,9 @@ pub fn judge(which: Which, c: &ConcCase, st: &mut Stats) -> Result<(), Failure> 
             return "not-serializable:recorded-operation-pair".to_string();
         }
         let k = known_nonserializable();
-        if k.contains(&sig) || k.iter().any(|w| w.starts_with('*') && names.contains(&&w[1..])) {
+        // an entry without "/kind" (pairs seen too rarely to know their kinds) covers every kind of that pair
+        let pair_only = sig.split('/').next().unwrap_or("").to_string();
+        if k.contains(&sig) || k.contains(&pair_only) || k.iter().any(|w| w.starts_with('*') && names.contains(&&w[1..])) {
             "not-serializable:recorded-operation-pair".to_string()
         } else {
             sig
